@@ -256,6 +256,25 @@ def group_case(draw, disabled=()):
             c = contracts[ga["lsig"]]
             if c["version"] >= 3:
                 c["items"] = head + tail + [I(op), ass] + c["items"]
+    # a member bounds its OWN fee by a run-time value (`global MinTxnFee`, the tool's heuristic for that transaction)
+    # and declares another member through an offset / the other member has an absolute index: the heuristic
+    # must not say anything about the other member's fee
+    if n >= 2 and draw(st.integers(0, 3)) == 0:
+        from vf.ir import I
+
+        ga = draw(st.sampled_from([t for t in txns if t.get("lsig") and contracts[t["lsig"]]["version"] >= 3] or [None]))
+        if ga is not None:
+            gb = draw(st.sampled_from([t for t in txns if t is not ga]))
+            if draw(st.booleans()):
+                ga["rel_cfg"] = [r for r in ga.get("rel_cfg", []) if r[0] != gb["id"]] + [[gb["id"], gb["pos"] - ga["pos"]]]
+            else:
+                gb["abs_cfg"] = gb["pos"]
+            cnd = ["cmp", "<=", ["read", {"kind": "txn", "field": "Fee"}], ["glob", "MinTxnFee"]]
+            ass = I("assert")
+            ass.append({"cond": cnd})
+            c = contracts[ga["lsig"]]
+            c["items"] = [I("txn", "Fee"), I("global", "MinTxnFee"), I("<="), ass] + c["items"]
+            c["features"] = sorted(set(c["features"]) | {"fee_vs_min_txn_fee"})
     return {"contracts": contracts, "txns": txns}
 
 
